@@ -108,6 +108,8 @@ def case(draw):
                 b = a
     prev = draw(st.sampled_from(["none", "shorter", "equal", "longer", "much_longer"]))
     c = {"orig": orig, "mode": mode, "a": a, "b": b, "sym": sym, "prev": prev}
+    if mode == "range" and draw(st.integers(0, 3)) == 0:
+        c["via"] = "wq!"        # the same range written by the quitting form of the write command
     if mode in ("w", "range") and draw(st.integers(0, 3)) == 0:
         # short counts from write(2) - legal at any time - must be retried from where the previous call stopped
         idx = sorted(set(draw(st.lists(st.integers(1, 12), min_size=1, max_size=4))))
@@ -181,7 +183,7 @@ def run_case(env, c):
             addr = b"%d" % a
         else:
             addr = b"%d,%d" % (a, b)
-        cmd = addr + b"w! out\n"
+        cmd = addr + (c.get("via") or "w!").encode() + b" out\n"
     elif mode == "wq":
         expect = _norm(orig)
         cmd = b"wq\n"
